@@ -181,7 +181,7 @@ pub fn take_until_unbalanced<'a>(
             } else if tag::<&str, Input<'_>, Error<Input<'_>>>(closing_tag)(input).is_ok() {
                 bracket_counter -= 1;
                 index += closing_tag.len();
-            } else if index == i.len() - 1 {
+            } else if index + 1 >= i.len() {
                 break 'consume;
             } else {
                 let c = i.slice(index..).inner().chars().next().unwrap_or_default();
